@@ -22,7 +22,7 @@ CHUNK = 2
 
 def space(tier):
     q = tier == 'quick'
-    return {'co_oxidation order': [2, 3, 4, 5] if q else [2, 3, 4, 5, 6, 7], 'signaling_cascade d': [2, 3] if q else [2, 3, 4],
+    return {'co_oxidation order': [2, 3, 4, 5] if q else [2, 3, 4, 5, 6, 7], 'signaling_cascade d': [2, 3, 4] if q else [2, 3, 4, 5],
             'toll_station': 'lanes 2-4 x cars 1-3', 'two_step m': [1, 2, 3], 'qft n': list(range(1, 7 if q else 9)), 'qfan': [1, 2, 3] if q else [1, 2, 3, 4],
             'exciton n': list(range(2, 7 if q else 9)), 'ising d': list(range(2, 9)), 'fpu d': [2, 3, 4, 5] if q else [2, 3, 4, 5, 6],
             'kuramoto d': [1, 2, 3, 4, 5], 'fractals': 'dimension 1-3 (2-4), level 1-3'}
@@ -34,7 +34,7 @@ def cases(tier):
         for k in (1e-2, 1.0, 1e4):
             for cyc in (True, False):
                 yield {'m': 'co_oxidation', 'order': order, 'k': k, 'cyclic': cyc}
-    for d in ([2, 3] if q else [2, 3, 4]):
+    for d in ([2, 3, 4] if q else [2, 3, 4, 5]):
         yield {'m': 'signaling_cascade', 'd': d}
     for lanes in (2, 3, 4):
         for cars in (1, 2, 3):
@@ -50,7 +50,7 @@ def cases(tier):
     for a in (1, 2, 4, 7, 8, 11, 13, 14):
         yield {'m': 'shor', 'a': a}
     for n in range(2, 7 if q else 9):
-        for al, be in itertools.product([0.0, 1.0, -0.3], [0.5, -2.0]):
+        for al, be in itertools.product([0.0, 1.0, -0.3, 0, 1, 3], [0.5, -2.0, -0.25]):      # ints and floats: both are numbers
             yield {'m': 'exciton', 'n': n, 'alpha': al, 'beta': be}
     for d in range(2, 9):
         for J, h in itertools.product([1.0, -0.5, 0.0], [0.0, 0.3, -2.0]):
